@@ -63,6 +63,8 @@ Fixpoint rw_apps (defs : list (nat * Z)) (apps : list dm_app) : list (nat * Z) *
     | None => let (defs', vs) := rw_apps (defs ++ [(n, d)]) r in (defs', (length defs, k) :: vs)
     end
   end.
+Definition app_key (a : dm_app) : nat * Z := let '(_, n, d) := a in (n, d).
+Definition app_kind (a : dm_app) : dm_kind := let '(k, _, _) := a in k.
 (* values: rho gives the dividends, sigma the auxiliary pairs *)
 Definition app_val (rho : nat -> Z) (a : dm_app) : Z :=
   let '(k, n, d) := a in match k with KDiv => smt_div (rho n) d | KMod => smt_mod (rho n) d end.
